@@ -49,6 +49,7 @@ static bool_t derTIsValid(u32 tag)
 		// установлен старший бит в последнем (младшем) октете?
 		if (tag & 128)
 			return FALSE;
+		size_t groups = 1;
 		// пробегаем ненулевые октеты вплоть до первого (старшего)
 		for (b = tag & 127, t = b, tag >>= 8; tag > 255; tag >>= 8)
 		{
@@ -57,11 +58,11 @@ static bool_t derTIsValid(u32 tag)
 			if ((tag & 128) == 0 || (t >> 25) != 0)
 				return FALSE;
 			// пересчитать тег-как-значение
-			b = tag & 127, t = t << 7, t |= b;
+			b = tag & 127, t = t << 7, t |= b, ++groups;
 		}
 		// можно кодировать одним октетом? меньшим числом октетов?
 		// в первом (старшем) октете не установлены 5 младших битов?
-		if (t < 31 || b == 0 || (tag & 31) != 31)
+		if (groups == 1 && b < 31 || b == 0 || (tag & 31) != 31)
 			return FALSE;
 	}
 	return TRUE;
